@@ -89,6 +89,13 @@ type dNode struct {
 	logBuf bytes.Buffer
 	since  time.Time
 	stopped map[string]bool // beacon ids stopped through the control API
+	routeVer int            // odd while a chain is being stopped or loaded
+}
+
+func (n *dNode) bumpRoute() {
+	n.mu.Lock()
+	n.routeVer++
+	n.mu.Unlock()
 }
 
 type oldShare struct {
